@@ -1,0 +1,54 @@
+//go:build verif
+
+package pktline
+
+// Contracts for the gvc verifier (/verif). Comment-only; never compiled into
+// a normal build.
+
+//gvc:func byteToASCIIHex
+//gvc:  props C34
+//gvc:  theory bv
+//gvc:  requires nibble: n < 16
+//gvc:  ensures digit: result == ite(n < 10, '0' + n, 'a' + n - 10)
+//gvc:end
+
+//gvc:func asciiHexToByte
+//gvc:  props C34 C53
+//gvc:  theory bv
+//gvc:  results v err
+//gvc:  ensures ok: (err == nil) == (('0' <= b && b <= '9') || ('a' <= b && b <= 'f') || ('A' <= b && b <= 'F'))
+//gvc:  ensures val: err == nil ==> v == ite(b <= '9', b - '0', ite(b >= 'a', b - 'a' + 10, b - 'A' + 10))
+//gvc:  ensures inv: err == nil && b != 'A' && b != 'B' && b != 'C' && b != 'D' && b != 'E' && b != 'F' ==> v < 16 && b == ite(v < 10, '0' + v, 'a' + v - 10)
+//gvc:end
+
+//gvc:func asciiHex16
+//gvc:  props C34
+//gvc:  theory bv
+//gvc:  requires range: 0 <= n && n <= 0xffff
+//gvc:  ensures len4: len(result) == 4
+//gvc:  ensures d0: result[0] == spec_hexdigit((n >> 12) & 15)
+//gvc:  ensures d1: result[1] == spec_hexdigit((n >> 8) & 15)
+//gvc:  ensures d2: result[2] == spec_hexdigit((n >> 4) & 15)
+//gvc:  ensures d3: result[3] == spec_hexdigit(n & 15)
+//gvc:end
+
+//gvc:func hexDecode
+//gvc:  props C34 C53
+//gvc:  theory bv
+//gvc:  results v err
+//gvc:  ensures short: len(buf) < 4 ==> err != nil
+//gvc:  ensures ok: len(buf) >= 4 ==> (err == nil) == (spec_ishex(buf[0]) && spec_ishex(buf[1]) && spec_ishex(buf[2]) && spec_ishex(buf[3]))
+//gvc:  ensures val: err == nil ==> v == spec_hexval(buf[0]) * 4096 + spec_hexval(buf[1]) * 256 + spec_hexval(buf[2]) * 16 + spec_hexval(buf[3])
+//gvc:  ensures kind: err != nil ==> is(err, ErrInvalidPktLen)
+//gvc:end
+
+//gvc:func ParseLength
+//gvc:  props C34 C53
+//gvc:  theory bv
+//gvc:  results n err
+//gvc:  let raw = spec_hexval(b[0]) * 4096 + spec_hexval(b[1]) * 256 + spec_hexval(b[2]) * 16 + spec_hexval(b[3])
+//gvc:  let wellformed = len(b) >= 4 && spec_ishex(b[0]) && spec_ishex(b[1]) && spec_ishex(b[2]) && spec_ishex(b[3])
+//gvc:  ensures git: (err == nil) == (wellformed && spec_pkt_len_ok(raw))
+//gvc:  ensures val: err == nil ==> n == raw
+//gvc:  ensures errval: err != nil ==> n == -1 && is(err, ErrInvalidPktLen)
+//gvc:end
